@@ -152,6 +152,25 @@ def run(ctx):
             ctx.violation('same-T-same-v', 'main', i,
                           {'type': describe(ty), 'py_type2': short(T2, 300), 'value': short(v, 400), 'first': out.brief(), 'second': out2.brief(), 'why': why},
                           mech='outcome-depends-on-more-than-T-and-v')
+    # generic dataclasses subscripted with subscripted generics (and same-named enums) that print alike: each parametrisation accepts
+    # exactly the data of ITS argument, whichever was used first
+    from .. import special
+    for i in range(max(10, ctx.budget // 50)):
+        if not ctx.want('generic-nesting', i):
+            continue
+        rng = ctx.rng('generic-nesting', i)
+        try:
+            for desc, TT, v, must in special.generic_nesting_case(rng):
+                out = observe(env.from_data, v, TT)
+                ctx.count('generic_nesting_rows')
+                ctx.case(('generic-nesting', desc.split('<-')[1], must, out.kind), nontrivial=True)
+                if out.kind == 'escape' or (out.kind == 'value') != must:
+                    ctx.violation('model-vs-pane', 'generic-nesting', i, {'case': desc, 'type': short(TT, 200), 'value': short(v, 150), 'must_accept': must, 'pane': out.brief()},
+                                  mech='generic-argument-confused:' + ('accepted' if out.kind == 'value' else 'rejected'))
+                    break
+        except Exception as e:
+            ctx.crash('generic-nesting', i, e)
+
     # directed: mappings whose data keys differ but convert to equal typed keys ('1.0' / '1.00' as Decimal, 'a/b' / 'a//b' as a path)
     from ..tyast import Ty as _Ty
     COLLIDING = (('decimal', ('1.0', '1.00', 1)), ('fraction', ('1/2', '2/4', 0.5)), ('path', ('a/b', 'a//b', 'a/b/')), ('float', (1, 1.0)),
